@@ -191,6 +191,99 @@ pub mod proofs {
         core::mem::forget(ring);
     }
 
+    // ------------------------------------------------------------------ C17: bounded protocol driver
+    /// The property's own observable: sequence numbers in user_data.  Up to 6 steps, each chosen
+    /// symbolically among {app: get slot + fill, app: flush, kernel: consume everything published,
+    /// kernel: post one completion if there is room, app: reap}, on a ring of 1, 2 or 4 entries whose
+    /// counters start at ANY u32 value (so the wrap is inside the domain).  Every submission the kernel
+    /// consumes is the next one the application filled (exactly once, in order); a slot is never handed
+    /// out over an unconsumed entry; every completion reaped is the next one the kernel posted.
+    #[kani::proof]
+    #[kani::unwind(8)]
+    pub fn c17_protocol_driver() {
+        let mut m = RingMem::new();
+        let k: u8 = kani::any();
+        kani::assume(k < 3);
+        let entries = 1u32 << k; // 1, 2, 4
+        let mask = entries - 1;
+        let sq0: u32 = kani::any(); // both SQ counters start here (empty ring)
+        let cq0: u32 = kani::any();
+        m.sq_khead.store(sq0, Ordering::Relaxed);
+        m.sq_ktail.store(sq0, Ordering::Relaxed);
+        m.cq_khead.store(cq0, Ordering::Relaxed);
+        m.cq_ktail.store(cq0, Ordering::Relaxed);
+        let mp: *mut RingMem = &mut m;
+        let mut ring = ring_over(unsafe { &mut *mp }, IoUringParamFlags::empty(), entries, entries, sq0, sq0, 0, 0, 0, 0, 3);
+        let mut filled: u64 = 0; // sequence number of the next submission the app fills
+        let mut consumed: u64 = 0; // ... the kernel expects next
+        let mut posted: u64 = 0; // completions posted
+        let mut reaped: u64 = 0; // completions reaped
+        let mut step = 0;
+        while step < 6 {
+            let what: u8 = kani::any();
+            kani::assume(what < 5);
+            unsafe {
+                match what {
+                    0 => {
+                        // app: get a slot and fill it
+                        if let Some(p) = ring.get_next_sqe_slot() {
+                            // never over an entry the kernel has not consumed
+                            assert!(filled - consumed < entries as u64, "slot_only_when_the_kernel_consumed_the_previous_user");
+                            (*p).0.user_data = filled;
+                            filled += 1;
+                        } else {
+                            assert!(filled - consumed == entries as u64, "refused_only_when_full");
+                        }
+                    }
+                    1 => {
+                        let _ = ring.flush_submission_queue();
+                    }
+                    2 => {
+                        // kernel: consume khead..ktail in order
+                        let ktail = (*mp).sq_ktail.load(Ordering::Relaxed);
+                        let mut khead = (*mp).sq_khead.load(Ordering::Relaxed);
+                        let mut guard = 0;
+                        while khead != ktail && guard < 4 {
+                            let e = &(*mp).sqes[(khead & mask) as usize];
+                            assert!(e.0.user_data == consumed, "kernel_sees_each_submission_once_in_order");
+                            consumed += 1;
+                            khead = khead.wrapping_add(1);
+                            guard += 1;
+                        }
+                        assert!(khead == ktail, "published_window_never_exceeds_the_ring");
+                        (*mp).sq_khead.store(khead, Ordering::Relaxed);
+                    }
+                    3 => {
+                        // kernel: post one completion if the CQ has room
+                        let kh = (*mp).cq_khead.load(Ordering::Relaxed);
+                        let kt = (*mp).cq_ktail.load(Ordering::Relaxed);
+                        if kt.wrapping_sub(kh) < entries {
+                            (*mp).cqes[(kt & mask) as usize].0.user_data = posted;
+                            posted += 1;
+                            (*mp).cq_ktail.store(kt.wrapping_add(1), Ordering::Relaxed);
+                        }
+                    }
+                    _ => {
+                        // app: reap
+                        match ring.get_next_cqe() {
+                            Some(e) => {
+                                assert!(reaped < posted, "reaped_only_what_was_posted");
+                                assert!(e.0.user_data == reaped, "completions_once_in_order_with_the_kernels_content");
+                                reaped += 1;
+                            }
+                            None => assert!(reaped == posted, "none_only_when_nothing_is_pending"),
+                        }
+                    }
+                }
+            }
+            step += 1;
+        }
+        assert!(consumed <= filled && reaped <= posted, "never_more_out_than_in");
+        kani::cover!(consumed == 2 && sq0 == u32::MAX, "two submissions consumed across the wrap");
+        kani::cover!(reaped == 2 && cq0 == u32::MAX, "two completions reaped across the wrap");
+        core::mem::forget(ring);
+    }
+
     // ------------------------------------------------------------------ C18: teardown
     /// Drop for IoUring under the mapping + descriptor contracts of the stub kernel: the ring's
     /// descriptor and each *distinct* mapping are released exactly once, nothing else is touched —
